@@ -30,7 +30,7 @@ ASSUMPTIONS = [
 PAIR_GM = "zz_glyphmap"  # a second glyph-map generator (own glyph names) for part A
 
 PAIR_OPTS = [
-    "glyphmap_generator",
+    "glyphmap_generator", "glyphmap_generator",
     "clip_to_viewbox", "clip_to_viewbox", "bitmap_resolution", "use_pngquant", "use_zopflipng", "pngquant_flags",
     "reuse_tolerance", "upem", "ascender", "descender", "width", "keep_glyph_names", "pretty_print", "transform",
     "clipbox_quantization", "family", "version_major", "color_format", "color_format", "linegap",
@@ -274,7 +274,7 @@ def _default(field):
 
 def gen_single(seed, idx):
     r = gen.rng(seed, "c20B", idx)
-    field = r.choice(sorted(B_FIELDS))
+    field = r.choice(sorted(B_FIELDS) + ["transform", "transform", "glyphmap_generator"])
     values, fmts = B_FIELDS[field]
     if field == "color_format":
         base_fmt = r.choice(["glyf_colr_1", "picosvg", "cbdt"])
@@ -515,34 +515,42 @@ def judge_single(case, res):
             out.append({"class": "option-not-reflected", "detail": {"part": "B", "field": m["field"], "oracle": oracle, "mode": mode,
                                                                     "value": m["value"], "got_want": d, "fmt": m["fmt"], "warm": m["warm"] and k == 0}})
         shas.append(r["listing"].get(m["var"]["output_file"]))
-    tm = __import__("re").match(r"translate\((-?\d+), (-?\d+)\)$", str(m["value"])) if m["field"] == "transform" else None
+    AFF = {"translate(100, 20)": (1.0, 100.0, 20.0), "matrix(1 0 0 1 40 -30)": (1.0, 40.0, -30.0), "scale(0.5)": (0.5, 0.0, 0.0)}
+    tm = AFF.get(str(m["value"])) if m["field"] == "transform" and "transform" not in m["base"] else None
     if tm and ins["base"].get("ok"):
-        dx, dy = int(tm.group(1)), int(tm.group(2))
+        k_, dx, dy = tm  # the user transform in font units: p -> k*p + (dx, dy)
+
+        def tx(v, axis):  # expected coordinate
+            return k_ * v + (dx if axis == 0 else dy)
         for k, mode in enumerate(m["modes"]):
             i = ins.get("v%d" % k)
             if not (i and i.get("ok")):
                 continue
             bb, vb = ins["base"]["info"].get("glyf_bounds") or {}, i["info"].get("glyf_bounds") or {}
-            if m["fmt"] in ("glyf", "glyf_colr_0", "glyf_colr_1") and bb:
-                moved = [g for g in bb if g != ".notdef" and g in vb and all(abs(vb[g][j] - bb[g][j] - (dx, dy, dx, dy)[j]) <= 1 for j in range(4))]
+            if m["fmt"] in ("glyf", "glyf_colr_0", "glyf_colr_1") and bb and k_ == 1.0:  # a scale may legitimately change which shape donates to which
+                # COLR base glyphs carry a bounding box quantised like the clip boxes; layer glyphs move exactly
+                qq = m["var"].get("clipbox_quantization") or int(round(m["var"].get("upem", 1024) * 0.02))
+                base_glyphs = set(ins["base"]["info"].get("colr_base_glyphs") or [])
+                moved = [g for g in bb if g != ".notdef" and g in vb and
+                         all(abs(vb[g][j] - tx(bb[g][j], j % 2)) <= (qq + 1 if g in base_glyphs else 1.5) for j in range(4))]
                 total = [g for g in bb if g != ".notdef"]
                 if len(moved) != len(total):
                     out.append({"class": "option-not-reflected", "detail": {"part": "B", "field": "transform", "oracle": "transform->glyph placement", "mode": mode,
                                                                             "value": m["value"], "fmt": m["fmt"], "got_want": [len(moved), len(total)]}})
             gb, gv = ins["base"]["info"].get("colr_gradients") or {}, i["info"].get("colr_gradients") or {}
-            for g in gb:
+            for g in (gb if k_ == 1.0 else {}):
                 if g not in gv or gb[g]["transformed"] or gv[g]["transformed"] or [c[0] for c in gb[g]["coords"]] != [c[0] for c in gv[g]["coords"]]:
                     continue  # only comparable when both trees hold the gradient in font space with the same structure
                 for cbase, cvar in zip(gb[g]["coords"], gv[g]["coords"]):
                     idx_xy = {4: ((1, 2), (3, 4), (5, 6)), 5: ((1, 2), (3, 4), (5, 6)), 6: ((1, 2), (4, 5)), 7: ((1, 2), (4, 5)), 8: ((1, 2),), 9: ((1, 2),)}[cbase[0]]
-                    if any(abs(cvar[ix] - cbase[ix] - dx) > 1 or abs(cvar[iy] - cbase[iy] - dy) > 1 for ix, iy in idx_xy):
+                    if any(abs(cvar[ix] - tx(cbase[ix], 0)) > 1.5 or abs(cvar[iy] - tx(cbase[iy], 1)) > 1.5 for ix, iy in idx_xy):
                         out.append({"class": "option-not-reflected", "detail": {"part": "B", "field": "transform", "oracle": "transform->gradient geometry", "mode": mode,
                                                                                 "value": m["value"], "fmt": m["fmt"], "got_want": [g, cbase, cvar, [dx, dy]]}})
                         break
             cb, cv = ins["base"]["info"].get("clips") or {}, i["info"].get("clips") or {}
             if m["fmt"].endswith("colr_1") and cb:
                 q = m["var"].get("clipbox_quantization") or int(round(m["var"].get("upem", 1024) * 0.02))
-                off = [g for g in cb if g in cv and any(abs(cv[g][j] - cb[g][j] - (dx, dy, dx, dy)[j]) > q + 1 for j in range(4))]
+                off = [g for g in cb if g in cv and any(abs(cv[g][j] - tx(cb[g][j], j % 2)) > q + 1 for j in range(4))]
                 if off:
                     out.append({"class": "option-not-reflected", "detail": {"part": "B", "field": "transform", "oracle": "transform->clip boxes", "mode": mode,
                                                                             "value": m["value"], "fmt": m["fmt"], "got_want": [off[:2], [dx, dy, q]]}})
